@@ -8,16 +8,18 @@ def P(quick, thorough, **kw):
     return d
 
 PLANS = {
- "C01": P([("roundtrip", 60), ("boundary_reader", 38), ("boundary", 12), ("sparse_boundary", 3), ("reopen", 10), ("bigline", 2), ("interleave", 20), ("reopen_marker", 20), ("caches_reopen", 10)],
-          [("roundtrip", 1500), ("boundary_reader", 380), ("boundary", 190), ("sparse_boundary", 24), ("reopen", 200), ("assets", 2), ("bigline", 10), ("caches_reopen", 100)]),
- "C02": P([("ranges", 70), ("boundary", 2), ("bigsection", 4), ("lastmeta", 12)], [("ranges", 2500), ("boundary", 40), ("index_states", 200), ("bigsection", 60)]),
+ "C01": P([("roundtrip", 60), ("boundary_reader", 38), ("boundary", 12), ("sparse_boundary", 3), ("reopen", 10), ("bigline", 2), ("interleave", 20), ("reopen_marker", 20), ("caches_reopen", 10), ("torn", 14)],
+          [("roundtrip", 1500), ("boundary_reader", 380), ("boundary", 190), ("sparse_boundary", 24), ("reopen", 200), ("assets", 2), ("bigline", 10), ("caches_reopen", 100), ("torn", 200)]),
+ "C02": P([("ranges", 70), ("boundary", 2), ("bigsection", 4), ("lastmeta", 12), ("boundary_reader", 16)],
+          [("ranges", 2500), ("boundary", 40), ("index_states", 200), ("bigsection", 60), ("boundary_reader", 60)]),
  "C03": P([("refuse", 60), ("torn", 40), ("boundary", 6), ("lastmeta", 12), ("caches_faults", 12)],
           [("refuse", 1500), ("torn", 600), ("boundary", 60), ("caches_faults", 200)]),
- "C04": P([("reopen", 50), ("reopen_marker", 20), ("roundtrip", 20), ("bigline", 6), ("lastmeta", 6), ("caches_reopen", 12)],
-          [("reopen", 1200), ("reopen_marker", 500), ("roundtrip", 400), ("bigline", 20), ("lastmeta", 60), ("caches_reopen", 120)], op_timeout_ms=20000),
- "C05": P([("torn", 90), ("index_states", 10), ("boundary", 19), ("boundary2", 6), ("lastmeta", 16)], [("torn", 3000), ("index_states", 300), ("boundary", 190), ("boundary2", 90), ("lastmeta", 160)]),
- "C06": P([("index_states", 50), ("roundtrip", 15), ("boundary", 38), ("boundary2", 10), ("sparse_boundary", 3), ("torn", 20), ("lastmeta", 16)],
-          [("index_states", 1500), ("roundtrip", 300), ("boundary", 120), ("boundary2", 90), ("sparse_boundary", 30), ("lastmeta", 160)]),
+ "C04": P([("reopen", 50), ("reopen_marker", 20), ("roundtrip", 20), ("bigline", 6), ("lastmeta", 6), ("caches_reopen", 12), ("lastmeta_intact", 13)],
+          [("reopen", 1200), ("reopen_marker", 500), ("roundtrip", 400), ("bigline", 20), ("lastmeta", 60), ("caches_reopen", 120), ("lastmeta_intact", 78)], op_timeout_ms=20000),
+ "C05": P([("torn", 90), ("index_states", 10), ("boundary", 19), ("boundary2", 6), ("lastmeta", 16), ("reopen_marker", 56)],
+          [("torn", 3000), ("index_states", 300), ("boundary", 190), ("boundary2", 90), ("lastmeta", 160), ("reopen_marker", 300)]),
+ "C06": P([("index_states", 50), ("roundtrip", 15), ("boundary", 38), ("boundary2", 10), ("sparse_boundary", 3), ("torn", 20), ("lastmeta", 16), ("caches_reopen", 10)],
+          [("index_states", 1500), ("roundtrip", 300), ("boundary", 120), ("boundary2", 90), ("sparse_boundary", 30), ("lastmeta", 160), ("caches_reopen", 100)]),
  "C07": P([("format", 40), ("roundtrip", 25), ("assets", 2), ("reopen", 20), ("boundary_reader", 12), ("contract", 25), ("torn", 15)],
           [("format", 1200), ("roundtrip", 600), ("assets", 2), ("reopen", 300), ("boundary_reader", 100), ("torn", 300)]),
  "C08": P([("caches", 60), ("caches_rebuild", 20)], [("caches", 2000), ("caches_rebuild", 400)]),
@@ -26,13 +28,14 @@ PLANS = {
           [("resample", 2000), ("boundary", 10), ("boundary", 60), ("boundary_reader", 60), ("sparse_boundary", 12)]),
  "C11": P([("caches", 30), ("cache_sections", 12), ("caches_reopen", 10), ("boundary_reader_c", 38), ("sparse_boundary", 4)],
           [("caches", 800), ("cache_sections", 150), ("caches_reopen", 300), ("boundary_reader_c", 60), ("sparse_boundary", 12)]),
- "C12": P([("roundtrip", 40), ("reopen", 15), ("torn", 30), ("index_states", 15), ("boundary", 12), ("boundary2", 6), ("lastmeta", 16), ("refuse", 15)],
-          [("roundtrip", 800), ("reopen", 400), ("torn", 600), ("index_states", 400), ("boundary", 60), ("boundary2", 60), ("lastmeta", 160), ("refuse", 300)]),
+ "C12": P([("roundtrip", 40), ("reopen", 15), ("torn", 30), ("index_states", 15), ("boundary", 12), ("boundary2", 6), ("lastmeta", 16), ("refuse", 15), ("lastmeta_intact", 13), ("caches_reopen", 10)],
+          [("roundtrip", 800), ("reopen", 400), ("torn", 600), ("index_states", 400), ("boundary", 60), ("boundary2", 60), ("lastmeta", 160), ("refuse", 300), ("lastmeta_intact", 39), ("caches_reopen", 100)]),
  "C13": P([("ranges", 70), ("bigsection", 3), ("boundary", 12), ("boundary_reader", 12)],
           [("ranges", 2500), ("bigsection", 40), ("boundary", 110), ("boundary_reader", 80)]),
  "C14": P([("ranges", 70), ("bigsection", 3), ("boundary", 12), ("boundary_reader", 12)],
           [("ranges", 2500), ("bigsection", 40), ("boundary", 110), ("boundary_reader", 80)]),
- "C15": P([("roundtrip", 40), ("reopen", 20), ("torn", 30), ("refuse", 10), ("boundary", 12), ("boundary2", 10), ("lastmeta", 8), ("interleave", 20)], [("roundtrip", 1000), ("reopen", 500), ("torn", 1000), ("refuse", 300), ("boundary", 60), ("boundary2", 90), ("lastmeta", 80), ("interleave", 300)]),
+ "C15": P([("roundtrip", 40), ("reopen", 20), ("torn", 30), ("refuse", 10), ("boundary", 12), ("boundary2", 10), ("lastmeta", 8), ("interleave", 20), ("caches_reopen", 10)],
+          [("roundtrip", 1000), ("reopen", 500), ("torn", 1000), ("refuse", 300), ("boundary", 60), ("boundary2", 90), ("lastmeta", 80), ("interleave", 300), ("caches_reopen", 100)]),
  "C16": P([("roundtrip", 30), ("refuse", 20), ("caches", 20), ("ranges", 10), ("reopen", 40), ("interleave", 60), ("caches_reopen", 15)], [("roundtrip", 600), ("refuse", 500), ("caches", 600), ("ranges", 300), ("interleave", 1500), ("reopen", 400), ("caches_reopen", 400)]),
  "C17": P([("contract", 60), ("roundtrip", 10)], [("contract", 1500), ("roundtrip", 200)]),
  "C18": P([("corrupt", 80)], [("corrupt", 2500)]),
@@ -80,6 +83,8 @@ def properties_of_failure(rec, jf):
     if what.startswith("result"):
         if k == "new":
             ps.add("C17")
+            if "caches=-" not in op and " got ok" in what:
+                ps.add("C08")      # a create with cache levels went through where it had to be refused: the levels hold what it found there
         elif k == "open":
             ps.add("C17")
             if c["torn"] or c["index_fault"]: ps.add("C05")
